@@ -1,1 +1,762 @@
-fn main() { eprintln!("not built yet"); std::process::exit(2); }
+//! vp-hash — monitor for C11: `minecraft_hash(server_id, shared_secret, encoded_public)` equals
+//! Minecraft's signed SHA-1 hex digest, for every input.
+//!
+//! The real function is called on every generated triple; its return value is compared with
+//! (a) `vp_common::refcrypto::minecraft_hash_ref` (one SHA-1 over the concatenation, hand-written
+//! two's complement -> lowercase hex) and, for a ~10 k sample, (b) a `python3` `hashlib` script.
+//! The published vectors (Notch, jeb_, simon) are compared against their literal digests.
+
+use passage_adapters::authentication::minecraft_hash;
+use serde_json::{Value, json};
+use std::io::Write;
+use std::process::{Command, Stdio};
+use std::time::Duration;
+use vp_common::refcrypto;
+use vp_common::report::{self, hex, unhex};
+use vp_common::{Cli, Report, Rng};
+
+// ---------------------------------------------------------------------------------------------
+// digest classes
+
+const N_LZ: usize = 4; // leading zero nibbles of the printed magnitude: 0, 1, 2, 3+
+
+#[derive(Clone, Copy, Debug, PartialEq, Eq)]
+struct DigestClass {
+    negative: bool,
+    /// leading zero nibbles of the magnitude (what the "no leading zeros" rule strips), capped at 3
+    lz: u8,
+    first: u8,
+}
+
+/// Leading zero nibbles of the 20-byte magnitude |x| of the two's complement digest, computed
+/// independently of `signed_hex` (bytewise negate, then count).
+fn classify(digest: &[u8; 20]) -> DigestClass {
+    let negative = digest[0] & 0x80 != 0;
+    let mut mag = *digest;
+    if negative {
+        let mut carry = true;
+        for b in mag.iter_mut().rev() {
+            let inv = !*b;
+            let (v, c) = if carry { inv.overflowing_add(1) } else { (inv, false) };
+            *b = v;
+            carry = c;
+        }
+    }
+    let mut lz = 0u8;
+    for b in mag.iter() {
+        if *b == 0 {
+            lz += 2;
+            continue;
+        }
+        if *b >> 4 == 0 {
+            lz += 1;
+        }
+        break;
+    }
+    DigestClass { negative, lz: lz.min(3), first: digest[0] }
+}
+
+impl DigestClass {
+    /// Stable name used in signatures and the histogram.
+    fn name(&self) -> String {
+        let sign = if self.negative { "negative" } else { "positive" };
+        let lz = match self.lz {
+            0 => "lz0",
+            1 => "lz1",
+            2 => "lz2",
+            _ => "lz3plus",
+        };
+        format!("{sign}-{lz}")
+    }
+    fn index(&self) -> usize {
+        (self.negative as usize) * N_LZ + self.lz as usize
+    }
+    fn is_rare(&self) -> bool {
+        self.lz >= 2 || matches!(self.first, 0x00 | 0x7f | 0x80 | 0xff)
+    }
+}
+
+// ---------------------------------------------------------------------------------------------
+// generated inputs
+
+#[derive(Clone, Debug)]
+struct Triple {
+    server_id: String,
+    secret: Vec<u8>,
+    key: Vec<u8>,
+}
+
+const ID_KINDS: [&str; 6] = ["empty", "ascii-short", "ascii-hex20", "non-ascii", "mixed-long", "control"];
+
+const NON_ASCII: &[char] = &[
+    'ä', 'ö', 'ü', 'ß', 'é', 'ñ', 'Ω', 'Ж', 'д', 'י', 'ع', '中', '文', '日', '本', '한', '글', '€', '\u{2028}',
+    '\u{feff}', '\u{fffd}', '😀', '🧱', '𝔘', '\u{10ffff}', '\u{80}', '\u{7ff}', '\u{800}', '\u{ffff}', '\u{10000}',
+];
+
+fn gen_len(rng: &mut Rng, typical: usize) -> usize {
+    match rng.below(10) {
+        0 => 0,
+        1 => 1,
+        2 | 3 => typical,
+        4 => *rng.pick(&[15usize, 16, 17, 20, 55, 56, 63, 64, 65, 119, 120, 127, 128, 129, 161, 162, 163, 294, 299, 300]),
+        _ => rng.below(301) as usize,
+    }
+}
+
+fn gen_server_id(rng: &mut Rng) -> (usize, String) {
+    let kind = match rng.below(10) {
+        0 | 1 => 0,
+        2 | 3 => 1,
+        4 => 2,
+        5 | 6 | 7 => 3,
+        8 => 4,
+        _ => 5,
+    };
+    let s = match kind {
+        0 => String::new(),
+        1 => rng.ascii_name(1, 20),
+        2 => {
+            const H: &[char] = &['0', '1', '2', '3', '4', '5', '6', '7', '8', '9', 'a', 'b', 'c', 'd', 'e', 'f'];
+            rng.string_from(H, 20)
+        }
+        3 => {
+            let n = rng.range(1, 24) as usize;
+            rng.string_from(NON_ASCII, n)
+        }
+        4 => {
+            let n = rng.range(21, 300) as usize;
+            (0..n)
+                .map(|_| {
+                    if rng.chance(1, 4) {
+                        *rng.pick(NON_ASCII)
+                    } else {
+                        (0x20u8 + rng.below(95) as u8) as char
+                    }
+                })
+                .collect()
+        }
+        _ => {
+            let n = rng.range(1, 20) as usize;
+            (0..n).map(|_| (rng.below(0x20) as u8) as char).collect()
+        }
+    };
+    (kind, s)
+}
+
+fn len_bucket(n: usize) -> usize {
+    match n {
+        0 => 0,
+        1..=15 => 1,
+        16 => 2,
+        17..=63 => 3,
+        64..=161 => 4,
+        162 => 5,
+        _ => 6,
+    }
+}
+
+fn gen_triple(rng: &mut Rng) -> (usize, Triple) {
+    let (kind, server_id) = gen_server_id(rng);
+    let sl = gen_len(rng, 16);
+    let kl = gen_len(rng, 162);
+    let secret = rng.bytes(sl);
+    let key = rng.bytes(kl);
+    (kind, Triple { server_id, secret, key })
+}
+
+fn triple_json(t: &Triple) -> Value {
+    json!({
+        "server_id": t.server_id,
+        "server_id_utf8_hex": hex(t.server_id.as_bytes()),
+        "shared_secret_hex": hex(&t.secret),
+        "encoded_public_hex": hex(&t.key),
+    })
+}
+
+// ---------------------------------------------------------------------------------------------
+// one comparison
+
+struct Checked {
+    class: DigestClass,
+    observed: String,
+    expected: String,
+}
+
+/// Calls the real function and the independent reference. A panic inside the real function is an
+/// observation too (it cannot "equal Minecraft's digest").
+fn check_one(t: &Triple) -> Checked {
+    let digest = refcrypto::sha1_concat(&[t.server_id.as_bytes(), &t.secret, &t.key]);
+    let expected = refcrypto::signed_hex(&digest);
+    let observed = match std::panic::catch_unwind(|| minecraft_hash(&t.server_id, &t.secret, &t.key)) {
+        Ok(s) => s,
+        Err(_) => "<panicked>".to_string(),
+    };
+    Checked { class: classify(&digest), observed, expected }
+}
+
+fn mismatch_witness(t: &Triple, c: &Checked, origin: &str) -> Value {
+    let mut w = triple_json(t);
+    let m = w.as_object_mut().expect("object");
+    m.insert("origin".into(), json!(origin));
+    m.insert("observed".into(), json!(c.observed));
+    m.insert("expected".into(), json!(c.expected));
+    m.insert("digest_class".into(), json!(c.class.name()));
+    m.insert("digest_first_byte".into(), json!(format!("{:02x}", c.class.first)));
+    w
+}
+
+// ---------------------------------------------------------------------------------------------
+// worker result
+
+#[derive(Clone)]
+struct PySample {
+    triple: Triple,
+    observed: String,
+    class: DigestClass,
+}
+
+struct Extreme {
+    score: i64,
+    triple: Option<Triple>,
+    observed: String,
+}
+
+impl Extreme {
+    fn new() -> Self {
+        Extreme { score: -1, triple: None, observed: String::new() }
+    }
+    fn offer(&mut self, score: i64, t: &Triple, observed: &str) {
+        if score > self.score {
+            self.score = score;
+            self.triple = Some(t.clone());
+            self.observed = observed.to_string();
+        }
+    }
+    fn merge(&mut self, o: Extreme) {
+        if o.score > self.score {
+            *self = o;
+        }
+    }
+}
+
+/// leading zero nibbles of `bytes` after xoring every byte with `mask` (0x00: zero run, 0xff: one run)
+fn run_nibbles(bytes: &[u8], mask: u8) -> i64 {
+    let mut n = 0;
+    for b in bytes {
+        let v = *b ^ mask;
+        if v == 0 {
+            n += 2;
+            continue;
+        }
+        if v >> 4 == 0 {
+            n += 1;
+        }
+        break;
+    }
+    n
+}
+
+struct ChunkOut {
+    evals: u64,
+    hist: [u64; 2 * N_LZ],
+    first00: u64,
+    first7f: u64,
+    first80: u64,
+    firstff: u64,
+    id_kind: [u64; ID_KINDS.len()],
+    non_ascii_ids: u64,
+    combos: Vec<u32>,
+    violations: Vec<(String, String, Value)>,
+    py: Vec<PySample>,
+    // search results: the deepest member found of each rare family
+    ex_pos_zero: Extreme, // 00 00 0.. : most leading zero nibbles, positive
+    ex_neg_ones: Extreme, // ff ff f.. : most leading zero nibbles of the magnitude, negative
+    ex_min_edge: Extreme, // 80 00 0.. : closest to the two's complement edge
+    ex_max_edge: Extreme, // 7f ff f.. : closest to the largest positive value
+}
+
+fn run_chunk(seed: u64, index: u64, n: u64, py_quota: usize) -> ChunkOut {
+    let mut rng = Rng::stream(seed, index);
+    let mut out = ChunkOut {
+        evals: 0,
+        hist: [0; 2 * N_LZ],
+        first00: 0,
+        first7f: 0,
+        first80: 0,
+        firstff: 0,
+        id_kind: [0; ID_KINDS.len()],
+        non_ascii_ids: 0,
+        combos: Vec::new(),
+        violations: Vec::new(),
+        py: Vec::new(),
+        ex_pos_zero: Extreme::new(),
+        ex_neg_ones: Extreme::new(),
+        ex_min_edge: Extreme::new(),
+        ex_max_edge: Extreme::new(),
+    };
+    let mut combo_seen = vec![false; ID_KINDS.len() * 7 * 7 * 2 * N_LZ];
+    let uniform_quota = py_quota / 2;
+    let uniform_every = if uniform_quota == 0 { u64::MAX } else { (n / uniform_quota as u64).max(1) };
+    let mut rare_taken = 0usize;
+    for i in 0..n {
+        let (kind, t) = gen_triple(&mut rng);
+        let c = check_one(&t);
+        out.evals += 1;
+        out.hist[c.class.index()] += 1;
+        match c.class.first {
+            0x00 => out.first00 += 1,
+            0x7f => out.first7f += 1,
+            0x80 => out.first80 += 1,
+            0xff => out.firstff += 1,
+            _ => {}
+        }
+        out.id_kind[kind] += 1;
+        if !t.server_id.is_ascii() {
+            out.non_ascii_ids += 1;
+        }
+        let combo = ((kind * 7 + len_bucket(t.secret.len())) * 7 + len_bucket(t.key.len())) * 2 * N_LZ + c.class.index();
+        if !combo_seen[combo] {
+            combo_seen[combo] = true;
+            out.combos.push(combo as u32);
+        }
+        if c.observed != c.expected && out.violations.len() < 16 {
+            out.violations.push((
+                format!("hash-mismatch/{}", c.class.name()),
+                format!(
+                    "minecraft_hash returned {:?}, Minecraft's digest is {:?} (digest class {})",
+                    c.observed,
+                    c.expected,
+                    c.class.name()
+                ),
+                mismatch_witness(&t, &c, "random"),
+            ));
+        }
+        // search: remember the deepest case of every rare family (all of them were compared above)
+        if c.class.is_rare() {
+            let digest = refcrypto::sha1_concat(&[t.server_id.as_bytes(), &t.secret, &t.key]);
+            match digest[0] {
+                0x00 => out.ex_pos_zero.offer(run_nibbles(&digest, 0x00), &t, &c.observed),
+                0xff => out.ex_neg_ones.offer(run_nibbles(&digest, 0xff), &t, &c.observed),
+                0x80 => out.ex_min_edge.offer(run_nibbles(&digest[1..], 0x00), &t, &c.observed),
+                0x7f => out.ex_max_edge.offer(run_nibbles(&digest[1..], 0xff), &t, &c.observed),
+                _ => {}
+            }
+        }
+        // python sample: half uniform (every k-th), half from the rare classes
+        let want_uniform = i % uniform_every == 0 && (i / uniform_every) < uniform_quota as u64;
+        let want_rare = !want_uniform && c.class.is_rare() && rare_taken < py_quota - uniform_quota;
+        if want_uniform || want_rare {
+            if want_rare {
+                rare_taken += 1;
+            }
+            out.py.push(PySample { triple: t, observed: c.observed, class: c.class });
+        }
+    }
+    out
+}
+
+// ---------------------------------------------------------------------------------------------
+// python second opinion
+
+const PY_SCRIPT: &str = r#"
+import sys, hashlib
+bad = 0
+n = 0
+with open(sys.argv[1], 'r', encoding='ascii') as f:
+    for idx, line in enumerate(f):
+        parts = line.rstrip('\n').split(' ')
+        if len(parts) != 4:
+            print('MALFORMED %d' % idx)
+            continue
+        sid, sec, key, got = parts
+        data = b''.join(bytes.fromhex('' if p == '-' else p) for p in (sid, sec, key))
+        d = hashlib.sha1(data).digest()
+        x = int.from_bytes(d, 'big', signed=True)
+        want = format(x, 'x')
+        n += 1
+        if want != got:
+            bad += 1
+            print('MISMATCH %d %s' % (idx, want))
+print('DONE %d %d' % (n, bad))
+"#;
+
+fn hex_or_dash(b: &[u8]) -> String {
+    if b.is_empty() { "-".to_string() } else { hex(b) }
+}
+
+enum PyOutcome {
+    Unavailable(String),
+    Ran { checked: u64, mismatches: Vec<(usize, String)> },
+}
+
+fn run_python(path: &std::path::Path, samples: &[PySample]) -> PyOutcome {
+    let mut body = String::new();
+    for s in samples {
+        // the observed string is written verbatim unless it contains a separator (then it cannot be
+        // a hex digest anyway and the placeholder makes python report the mismatch)
+        let obs = if s.observed.is_empty() || s.observed.contains([' ', '\n', '\r']) || !s.observed.is_ascii() {
+            "<unprintable>".to_string()
+        } else {
+            s.observed.clone()
+        };
+        body.push_str(&format!(
+            "{} {} {} {}\n",
+            hex_or_dash(s.triple.server_id.as_bytes()),
+            hex_or_dash(&s.triple.secret),
+            hex_or_dash(&s.triple.key),
+            obs
+        ));
+    }
+    if let Some(dir) = path.parent() {
+        let _ = std::fs::create_dir_all(dir);
+    }
+    match std::fs::File::create(path).and_then(|mut f| f.write_all(body.as_bytes())) {
+        Ok(()) => {}
+        Err(e) => return PyOutcome::Unavailable(format!("cannot write sample file {}: {e}", path.display())),
+    }
+    let child = Command::new("python3")
+        .arg("-c")
+        .arg(PY_SCRIPT)
+        .arg(path)
+        .stdin(Stdio::null())
+        .stdout(Stdio::piped())
+        .stderr(Stdio::piped())
+        .spawn();
+    let child = match child {
+        Ok(c) => c,
+        Err(e) => return PyOutcome::Unavailable(format!("python3 cannot be spawned: {e}")),
+    };
+    // cap the wait: a helper thread collects the output, the main thread waits at most 120 s
+    let pid = child.id();
+    let (tx, rx) = std::sync::mpsc::channel();
+    std::thread::spawn(move || {
+        let _ = tx.send(child.wait_with_output());
+    });
+    let output = match rx.recv_timeout(Duration::from_secs(120)) {
+        Ok(Ok(o)) => o,
+        Ok(Err(e)) => return PyOutcome::Unavailable(format!("waiting for python3 failed: {e}")),
+        Err(_) => {
+            let _ = Command::new("kill").arg("-9").arg(pid.to_string()).status();
+            return PyOutcome::Unavailable("python3 did not finish within 120 s".into());
+        }
+    };
+    let stdout = String::from_utf8_lossy(&output.stdout);
+    let mut done: Option<(u64, u64)> = None;
+    let mut mismatches = Vec::new();
+    for line in stdout.lines() {
+        let mut it = line.split(' ');
+        match it.next() {
+            Some("MISMATCH") => {
+                let idx = it.next().and_then(|s| s.parse::<usize>().ok());
+                let want = it.next().unwrap_or("").to_string();
+                if let Some(idx) = idx {
+                    mismatches.push((idx, want));
+                }
+            }
+            Some("DONE") => {
+                let n = it.next().and_then(|s| s.parse().ok()).unwrap_or(0);
+                let b = it.next().and_then(|s| s.parse().ok()).unwrap_or(0);
+                done = Some((n, b));
+            }
+            _ => {}
+        }
+    }
+    match done {
+        Some((n, b)) if output.status.success() && n == samples.len() as u64 && b == mismatches.len() as u64 => {
+            PyOutcome::Ran { checked: n, mismatches }
+        }
+        _ => PyOutcome::Unavailable(format!(
+            "python3 script did not complete (status {:?}, stderr: {})",
+            output.status.code(),
+            String::from_utf8_lossy(&output.stderr).chars().take(300).collect::<String>()
+        )),
+    }
+}
+
+// ---------------------------------------------------------------------------------------------
+
+fn replay(cli: &Cli, report: &mut Report, path: &std::path::Path) {
+    let text = match std::fs::read_to_string(path) {
+        Ok(t) => t,
+        Err(e) => {
+            report.inconclusive_fatal(&format!("cannot read replay file {}: {e}", path.display()));
+            return;
+        }
+    };
+    let v: Value = match serde_json::from_str(&text) {
+        Ok(v) => v,
+        Err(e) => {
+            report.inconclusive_fatal(&format!("replay file is not JSON: {e}"));
+            return;
+        }
+    };
+    let w = v.get("witness").unwrap_or(&v);
+    let g = |k: &str| w.get(k).and_then(|x| x.as_str()).map(unhex);
+    let (Some(id), Some(secret), Some(key)) = (g("server_id_utf8_hex"), g("shared_secret_hex"), g("encoded_public_hex")) else {
+        report.inconclusive_fatal("replay witness lacks server_id_utf8_hex / shared_secret_hex / encoded_public_hex");
+        return;
+    };
+    let Ok(server_id) = String::from_utf8(id) else {
+        report.inconclusive_fatal("replay witness: server id is not UTF-8");
+        return;
+    };
+    let t = Triple { server_id, secret, key };
+    let c = check_one(&t);
+    report.eval(Some(&format!("replay/{}", c.class.name())));
+    report.count(&format!("digest class {}", c.class.name()), 1);
+    report.sample(mismatch_witness(&t, &c, "replay"));
+    println!("[{}] replay: observed {:?} expected {:?}", cli.prop, c.observed, c.expected);
+    if c.observed != c.expected {
+        report.violation(
+            &format!("hash-mismatch/{}", c.class.name()),
+            &format!("minecraft_hash returned {:?}, Minecraft's digest is {:?}", c.observed, c.expected),
+            mismatch_witness(&t, &c, "replay"),
+        );
+    }
+}
+
+fn main() {
+    let cli = Cli::parse();
+    report::watchdog(&cli.prop, 900);
+    let mut report = Report::new(
+        &cli,
+        "exploration",
+        "every case is one call of the real minecraft_hash(server_id, shared_secret, encoded_public) compared with an \
+         independent signed-hex SHA-1: the 3 published vectors, fixed structural cases, then seeded random triples \
+         (server id kinds: empty/ascii/hex20/non-ascii/long mixed/control; secret and key lengths 0..=300 biased to 16 and 162). \
+         A case is non-trivial when at least one part is non-empty; distinct_nontrivial counts the distinct combinations \
+         (server id kind, secret length bucket, key length bucket, digest sign, leading-zero-nibble class 0/1/2/3+) that were \
+         actually hit, plus the published vectors and structural cases individually",
+    );
+    // the panic of a mutated/defective real function is caught and reported as a mismatch; keep stderr quiet
+    std::panic::set_hook(Box::new(|_| {}));
+
+    if let Err(e) = refcrypto::self_test() {
+        report.inconclusive_fatal(&format!("reference crypto self-test failed, no verdict possible: {e}"));
+        std::process::exit(report.finish());
+    }
+    report.assume("the reference is vp_common::refcrypto (sha1 crate over the concatenated parts + hand-written two's complement hex); it passed its self-test against the three published digests in this run");
+    report.assume("SHA-1 itself is trusted from the sha1 crate (reference) and python hashlib (second opinion); the product uses the sha1 crate too, so a defect inside that crate's compression function would only be seen by the python sample");
+    report.assume("out of reach: the digest 0x80 00..00 itself (needs a SHA-1 pre-image); the nearest members of the 0x80.. family found by search are listed under coverage.search");
+
+    if let Some(path) = cli.replay.clone() {
+        replay(&cli, &mut report, &path);
+        std::process::exit(report.finish());
+    }
+
+    // ---- published vectors: literal digests, independent of any code of ours
+    let published = [
+        ("Notch", "4ed1f46bbe04bc756bcb17c0c7ce3e4632f06a48"),
+        ("jeb_", "-7c9d5b0044c130109a5d7b5fb5c317c02b4e28c1"),
+        ("simon", "88e16a1019277b15d58faf0541e11910eb756f6"),
+    ];
+    let mut py_samples: Vec<PySample> = Vec::new();
+    for (name, want) in published {
+        // the name may sit in any of the three parts: the digest covers the concatenation
+        for (slot, t) in [
+            Triple { server_id: name.to_string(), secret: vec![], key: vec![] },
+            Triple { server_id: String::new(), secret: name.as_bytes().to_vec(), key: vec![] },
+            Triple { server_id: String::new(), secret: vec![], key: name.as_bytes().to_vec() },
+        ]
+        .into_iter()
+        .enumerate()
+        {
+            let c = check_one(&t);
+            report.eval(Some(&format!("published/{name}/{slot}")));
+            report.count("published vector comparisons", 1);
+            if c.observed != want || c.expected != want {
+                report.violation(
+                    &format!("hash-mismatch/{}", c.class.name()),
+                    &format!("published vector {name}: minecraft_hash returned {:?}, published digest is {want:?}", c.observed),
+                    mismatch_witness(&t, &Checked { class: c.class, observed: c.observed.clone(), expected: want.to_string() }, "published vector"),
+                );
+            }
+            if slot == 0 {
+                report.sample(json!({"case": "published vector", "input": triple_json(&t), "observed": c.observed, "published": want}));
+            }
+            py_samples.push(PySample { triple: t, observed: c.observed, class: c.class });
+        }
+    }
+
+    // ---- structural cases: empty parts, block boundaries, part boundaries that shift
+    let mut structural: Vec<Triple> = vec![
+        Triple { server_id: String::new(), secret: vec![], key: vec![] },
+        Triple { server_id: "a".into(), secret: b"b".to_vec(), key: b"c".to_vec() },
+        Triple { server_id: "ab".into(), secret: b"c".to_vec(), key: vec![] },
+        Triple { server_id: "a".into(), secret: b"bc".to_vec(), key: vec![] },
+        Triple { server_id: "".into(), secret: b"a".to_vec(), key: b"bc".to_vec() },
+        Triple { server_id: "c".into(), secret: b"b".to_vec(), key: b"a".to_vec() },
+        Triple { server_id: "justchunks".into(), secret: b"verysecuresecret".to_vec(), key: b"verysecuresecret".to_vec() },
+        Triple { server_id: "ÄÖÜ-サーバー-🧱".into(), secret: vec![0u8; 16], key: vec![0xffu8; 162] },
+        Triple { server_id: "\u{0}".into(), secret: vec![0u8], key: vec![0u8] },
+    ];
+    for total in [55usize, 56, 63, 64, 65, 119, 120, 128] {
+        // SHA-1 padding boundaries, split over the three parts
+        structural.push(Triple { server_id: "x".repeat(total / 3), secret: vec![0x5a; total / 3], key: vec![0xa5; total - 2 * (total / 3)] });
+    }
+    for (i, t) in structural.iter().enumerate() {
+        let c = check_one(t);
+        let nontrivial = !(t.server_id.is_empty() && t.secret.is_empty() && t.key.is_empty());
+        let class = format!("structural/{i}");
+        report.eval(if nontrivial { Some(&class) } else { None });
+        report.count("structural case comparisons", 1);
+        if c.observed != c.expected {
+            report.violation(
+                &format!("hash-mismatch/{}", c.class.name()),
+                &format!("minecraft_hash returned {:?}, Minecraft's digest is {:?}", c.observed, c.expected),
+                mismatch_witness(t, &c, "structural case"),
+            );
+        }
+        py_samples.push(PySample { triple: t.clone(), observed: c.observed, class: c.class });
+    }
+
+    // ---- random triples
+    let total = cli.scaled(cli.tier.pick(2_000_000, 50_000_000));
+    let chunk = cli.tier.pick(10_000u64, 100_000u64).min(total).max(1);
+    let chunks = total.div_ceil(chunk);
+    let py_quota = (10_000u64.div_ceil(chunks) as usize).max(2);
+    let items: Vec<(u64, u64)> = (0..chunks).map(|i| (i, chunk.min(total - i * chunk))).collect();
+    let seed = cli.seed;
+    let outs = report::par_map(items, cli.threads(), |_, (i, n)| run_chunk(seed, *i, *n, py_quota));
+
+    let mut hist = [0u64; 2 * N_LZ];
+    let (mut f00, mut f7f, mut f80, mut fff, mut non_ascii) = (0u64, 0u64, 0u64, 0u64, 0u64);
+    let mut id_kind = [0u64; ID_KINDS.len()];
+    let mut ex = [Extreme::new(), Extreme::new(), Extreme::new(), Extreme::new()];
+    let mut random_samples_shown = 0;
+    for o in outs {
+        report.add_evals(o.evals);
+        for (a, b) in hist.iter_mut().zip(o.hist.iter()) {
+            *a += b;
+        }
+        f00 += o.first00;
+        f7f += o.first7f;
+        f80 += o.first80;
+        fff += o.firstff;
+        non_ascii += o.non_ascii_ids;
+        for (a, b) in id_kind.iter_mut().zip(o.id_kind.iter()) {
+            *a += b;
+        }
+        for c in o.combos {
+            report.add_distinct(&format!("combo/{c}"));
+        }
+        for (sig, what, w) in o.violations {
+            report.violation(&sig, &what, w);
+        }
+        ex[0].merge(o.ex_pos_zero);
+        ex[1].merge(o.ex_neg_ones);
+        ex[2].merge(o.ex_min_edge);
+        ex[3].merge(o.ex_max_edge);
+        for s in o.py {
+            if random_samples_shown < 2 && !s.triple.server_id.is_ascii() {
+                random_samples_shown += 1;
+                report.sample(json!({"case": "random triple", "input": triple_json(&s.triple), "observed": s.observed, "digest_class": s.class.name()}));
+            }
+            py_samples.push(s);
+        }
+    }
+
+    // histogram of digest classes actually hit
+    let mut negative = 0;
+    let mut lz_tot = [0u64; N_LZ];
+    for neg in 0..2 {
+        for lz in 0..N_LZ {
+            let n = hist[neg * N_LZ + lz];
+            let c = DigestClass { negative: neg == 1, lz: lz as u8, first: 0 };
+            report.count(&format!("digest class {}", c.name()), n);
+            lz_tot[lz] += n;
+            if neg == 1 {
+                negative += n;
+            }
+        }
+    }
+    report.count("digests negative (top bit set)", negative);
+    report.count("digests positive", hist.iter().sum::<u64>() - negative);
+    report.count("magnitude leading zero nibbles = 0", lz_tot[0]);
+    report.count("magnitude leading zero nibbles = 1", lz_tot[1]);
+    report.count("magnitude leading zero nibbles = 2", lz_tot[2]);
+    report.count("magnitude leading zero nibbles >= 3", lz_tot[3]);
+    report.count("digest first byte 0x00", f00);
+    report.count("digest first byte 0x7f", f7f);
+    report.count("digest first byte 0x80", f80);
+    report.count("digest first byte 0xff", fff);
+    report.count("server ids with non-ASCII text", non_ascii);
+    for (k, n) in ID_KINDS.iter().zip(id_kind.iter()) {
+        report.count(&format!("server id kind {k}"), *n);
+    }
+    let missing: Vec<&str> = [
+        ("negative", negative),
+        ("1 leading zero nibble", lz_tot[1]),
+        ("2 leading zero nibbles", lz_tot[2]),
+        ("3+ leading zero nibbles", lz_tot[3]),
+        ("first byte 0x00", f00),
+        ("first byte 0x7f", f7f),
+        ("first byte 0x80", f80),
+        ("first byte 0xff", fff),
+        ("non-ASCII server id", non_ascii),
+    ]
+    .iter()
+    .filter(|(_, n)| *n == 0)
+    .map(|(k, _)| *k)
+    .collect();
+    if !missing.is_empty() {
+        report.inconclusive(&format!("digest/input classes never hit by this run (workload too small?): {}", missing.join(", ")));
+    }
+
+    // search results (deepest member of every rare family; each was compared like any other case)
+    let fam = [
+        ("positive, most leading zero nibbles (00 0..)", "leading_zero_nibbles"),
+        ("negative, longest run of one-bits (ff f..), i.e. magnitude with most leading zeros", "leading_f_nibbles"),
+        ("nearest to the two's complement edge 80 00..00", "zero_nibbles_after_80"),
+        ("nearest to the largest positive value 7f ff..ff", "f_nibbles_after_7f"),
+    ];
+    let mut search = vec![];
+    for ((title, measure), e) in fam.iter().zip(ex.iter()) {
+        if let Some(t) = &e.triple {
+            let digest = refcrypto::sha1_concat(&[t.server_id.as_bytes(), &t.secret, &t.key]);
+            search.push(json!({"family": title, *measure: e.score, "digest": hex(&digest), "observed": e.observed, "input": triple_json(t)}));
+        }
+    }
+    if let Some(s) = search.first() {
+        report.sample(json!({"case": "search result", "found": s}));
+    }
+    if let Some(s) = search.get(2) {
+        report.sample(json!({"case": "search result", "found": s}));
+    }
+    report.set("search", Value::Array(search));
+
+    // ---- second opinion: python3 hashlib over a sample
+    let root = std::env::var("VERIF_ROOT").unwrap_or_else(|_| "/verif".into());
+    let path = std::path::PathBuf::from(format!(
+        "{root}/.run/{}-python-sample-{}-seed{}-{}.txt",
+        cli.prop,
+        cli.tier.as_str(),
+        cli.seed,
+        std::process::id()
+    ));
+    report.count("triples handed to python3", py_samples.len() as u64);
+    match run_python(&path, &py_samples) {
+        PyOutcome::Unavailable(why) => {
+            report.assume(&format!("python3 second opinion not available in this run ({why}); the verdict rests on the Rust reference alone"));
+            report.inconclusive(&format!("python3 second opinion skipped: {why}"));
+        }
+        PyOutcome::Ran { checked, mismatches } => {
+            report.count("triples recomputed by python3 hashlib", checked);
+            report.count("python3 disagreements", mismatches.len() as u64);
+            for (idx, want) in mismatches {
+                let Some(s) = py_samples.get(idx) else { continue };
+                let c = Checked { class: s.class, observed: s.observed.clone(), expected: want.clone() };
+                report.violation(
+                    &format!("hash-mismatch-python/{}", s.class.name()),
+                    &format!("minecraft_hash returned {:?}, python hashlib/int.from_bytes(signed) gives {:?}", s.observed, want),
+                    mismatch_witness(&s.triple, &c, "python3 sample"),
+                );
+            }
+        }
+    }
+    if report.violations_so_far() == 0 {
+        let _ = std::fs::remove_file(&path);
+    }
+
+    std::process::exit(report.finish());
+}
